@@ -27,6 +27,7 @@ from vlib.runner import Check, sha
 EPS = 2.0 ** -52
 UNIT_F = {"METRIC": F(1), "FIELD": F(3048, 10000), "LAB": F(1, 100), "PVT-M": F(1)}
 GRIDUNIT = {"METRIC": "METRES", "FIELD": "FEET", "LAB": "CM"}
+GRIDUNIT_F = {"METRES": F(1), "FEET": F(3048, 10000), "CM": F(1, 100)}
 UNIT_NAME = {"METRIC": "Metric", "FIELD": "Field", "LAB": "Lab", "PVT-M": "PVT-M"}
 SCALES = ["0.25", "0.1", "0.37", "1"]
 
@@ -128,6 +129,8 @@ def case_strategy(draw, tier):
     case["actroute"] = draw(st.sampled_from(["reset", "ctor", "copy", "reset_all"]))
     case["formatted"] = draw(st.sampled_from([True, False]))
     case["split"] = draw(st.sampled_from(["i", "j"]))
+    # GRIDUNIT in the GRID section: the geometry keywords are then in that length unit, whatever the deck's unit system
+    case["gridunit"] = draw(st.sampled_from([None, None, None, "METRES", "FEET", "CM"]))
     return case
 
 
@@ -427,6 +430,8 @@ def block(name, vals, per_line=8):
 def deck_text(case, body, dims, actnum=True, extras=True):
     nx, ny, nz = dims
     lines = ["RUNSPEC", "DIMENS", " %d %d %d /" % (nx, ny, nz), case["units"], "GRID"]
+    if case.get("gridunit"):
+        lines += ["GRIDUNIT", " '%s' /" % case["gridunit"]]
     if extras and case["mapaxes"] is not None:
         if case["mapaxes"]["units"]:
             lines += ["MAPUNITS", " %s /" % case["mapaxes"]["units"]]
@@ -519,7 +524,7 @@ class C13(Check):
         "(2048 eps x 3 L/ext for volumes, 64 eps L for positions)",
         "EGRID stores REAL: COORD/ZCORN compared to 2^-24 relative (unformatted) / 1.7e-7 (formatted, 8 digits)",
         "EclipseGrid::save refuses the PVT-M unit system (documented throw); counted as class save:refused, not judged",
-        "radial/spider grids, GDFILE, GRIDUNIT, LGRs, numerical aquifers, PINCH/MINPV are out of scope",
+        "radial/spider grids, GDFILE, LGRs, numerical aquifers, PINCH/MINPV are out of scope",
     ]
     EXHAUSTIVE = False
     EXAMPLES = {"quick": 150, "thorough": 1500}
@@ -597,6 +602,8 @@ class C13(Check):
         n = case["nx"] * case["ny"] * case["nz"]
         ina = inactive_set(case)
         labels = ["kind:" + case["kind"], "units:" + case["units"], "fmt" if case["formatted"] else "unfmt"]
+        if case.get("gridunit"):
+            labels.append("gridunit:%s" % ("same-as-deck" if GRIDUNIT.get(case["units"]) == case["gridunit"] else "differs-from-deck"))
         if case["inactive"] is None:
             labels.append("actnum:none")
         elif len(ina) == 0:
@@ -671,7 +678,10 @@ class C13(Check):
         self._cur = ctx
         ref = build_ref(case)
         dims = (case["nx"], case["ny"], case["nz"])
-        f = float(UNIT_F[case["units"]])
+        f_deck = float(UNIT_F[case["units"]])
+        # length factor of the geometry keywords: the GRIDUNIT one if the deck has that keyword (EclipseGrid applies the
+        # ratio grid unit / deck unit to everything it has built), else the deck's
+        f = float(GRIDUNIT_F[case["gridunit"]]) if case.get("gridunit") else f_deck
         L, ext = ref.scales()
         L, ext = float(L) * f, float(ext) * f
         cond = 3.0 * L / ext + 3.0
@@ -681,7 +691,7 @@ class C13(Check):
         # volumes: relative error of an extent is ~ eps L/ext; the library's formula sums 6 x 64 signed
         # products of coordinate differences
         vol_rel = 2048 * EPS * cond
-        tol = {"pos": pos_tol, "vol": vol_rel, "f": f}
+        tol = {"pos": pos_tol, "vol": vol_rel, "f": f, "f_file": f_deck}
 
         deck_cp = deck_text(case, cp_body(ref), dims)
         if case["kind"] == "bc":
@@ -929,7 +939,7 @@ class C13(Check):
         g1, eg, fi = ld["grid"], ld["egrid"], ld["file"]
         nx, ny, nz = dims
         n = nx * ny * nz
-        f = tol["f"]
+        f = tol["f_file"]       # the file is written in the deck's units (its GRIDUNIT record says so)
         rel = REL_FMT if case["formatted"] else REL_UNFMT
         R = "round trip: "
         self.check_indices(case, dims, g1, "EclipseGrid(file)")
